@@ -41,6 +41,26 @@
 
 #include <vector>
 
+#ifdef POPS_CORE_VERIF
+#include <functional>
+namespace pops {
+namespace verif {
+/** Verification-only trace point: called after each action block of Model::run_step */
+inline std::function<void(const char*, int, int)>& trace_hook()
+{
+    static std::function<void(const char*, int, int)> hook;
+    return hook;
+}
+inline void trace(const char* action, int step, int input_index)
+{
+    auto& hook = trace_hook();
+    if (hook)
+        hook(action, step, input_index);
+}
+}  // namespace verif
+}  // namespace pops
+#endif
+
 namespace pops {
 
 template<
@@ -308,6 +328,10 @@ public:
         // Soil step is the same as simulation step.
         if (soil_pool_)
             soil_pool_->next_step(step);
+#ifdef POPS_CORE_VERIF
+        if (soil_pool_)
+            verif::trace("soil_next_step", step, -1);
+#endif
         // removal of dispersers due to lethal temperatures
         if (config_.use_lethal_temperature && config_.lethal_schedule()[step]) {
             int lethal_step =
@@ -321,6 +345,9 @@ public:
                 RandomNumberGeneratorProvider<Generator>>
                 remove(this->environment(), config_.lethal_temperature);
             remove.action(host_pool, generator_provider_);
+#ifdef POPS_CORE_VERIF
+            verif::trace("lethal_temperature", step, lethal_step);
+#endif
         }
         // removal of percentage of dispersers
         if (config_.use_survival_rate && config_.survival_rate_schedule()[step]) {
@@ -329,6 +356,9 @@ public:
             SurvivalRateAction<StandardMultiHostPool, IntegerRaster, FloatRaster>
                 survival(survival_rates[survival_step]);
             survival.action(host_pool, generator_provider_);
+#ifdef POPS_CORE_VERIF
+            verif::trace("survival_rate", step, survival_step);
+#endif
         }
         // actual spread
         if (config_.spread_schedule()[step]) {
@@ -354,7 +384,13 @@ public:
                     soil_pool_, config_.dispersers_to_soils_percentage);
             }
             spread_action.action(host_pool, pest_pool, generator_provider_);
+#ifdef POPS_CORE_VERIF
+            verif::trace("spread", step, -1);
+#endif
             host_pool.step_forward(step);
+#ifdef POPS_CORE_VERIF
+            verif::trace("step_forward", step, -1);
+#endif
             if (config_.use_overpopulation_movements) {
                 MoveOverpopulatedPests<
                     StandardMultiHostPool,
@@ -370,6 +406,9 @@ public:
                         config_.rows,
                         config_.cols};
                 move_pest.action(host_pool, pest_pool, generator_provider_);
+#ifdef POPS_CORE_VERIF
+            verif::trace("overpopulation", step, -1);
+#endif
             }
             if (config_.use_movements) {
                 HostMovement<
@@ -384,6 +423,9 @@ public:
                         movements,
                         config_.movement_schedule};
                 last_index = host_movement.action(host_pool, generator_provider_);
+#ifdef POPS_CORE_VERIF
+            verif::trace("movement", step, static_cast<int>(last_index));
+#endif
             }
         }
         // treatments
@@ -391,6 +433,9 @@ public:
             for (auto& host : host_pool.host_pools()) {
                 treatments.manage(step, *host);
             }
+#ifdef POPS_CORE_VERIF
+            verif::trace("treatments", step, -1);
+#endif
         }
         if (config_.use_mortality && config_.mortality_schedule()[step]) {
             // expectation is that mortality tracker is of length (1/mortality_rate
@@ -398,18 +443,27 @@ public:
             // TODO: died.zero(); should be done by the caller if needed, document!
             Mortality<StandardMultiHostPool, IntegerRaster, FloatRaster> mortality;
             mortality.action(host_pool);
+#ifdef POPS_CORE_VERIF
+            verif::trace("mortality", step, -1);
+#endif
         }
         // compute spread rate
         if (config_.use_spreadrates && config_.spread_rate_schedule()[step]) {
             unsigned rates_step =
                 simulation_step_to_action_step(config_.spread_rate_schedule(), step);
             spread_rate.action(host_pool, rates_step);
+#ifdef POPS_CORE_VERIF
+            verif::trace("spread_rate", step, static_cast<int>(rates_step));
+#endif
         }
         // compute quarantine escape
         if (config_.use_quarantine && config_.quarantine_schedule()[step]) {
             unsigned action_step =
                 simulation_step_to_action_step(config_.quarantine_schedule(), step);
             quarantine.action(host_pool, quarantine_areas, action_step);
+#ifdef POPS_CORE_VERIF
+            verif::trace("quarantine", step, static_cast<int>(action_step));
+#endif
         }
     }
 
